@@ -256,6 +256,12 @@ func extractTermsAux(ctx *Context, x interface{}, terms StringSet, depth int) {
 		for _, s := range vv {
 			extractTermsAux(ctx, s, terms, depth+1)
 		}
+	case []map[string]interface{}:
+		// What the Javascript runtime exports for an array of
+		// objects (facts written by rule actions).
+		for _, y := range vv {
+			extractTermsAux(ctx, y, terms, depth+1)
+		}
 	default:
 		// We don't index what we don't understand -- or what
 		// we otherwise choose to ignore.  Numbers, for
